@@ -315,6 +315,11 @@ func Run(c *vh.Ctx) {
 		lap("unbalanced stream; output-buffer stack against the model")
 		return
 	}
+	if os.Getenv("C20_ONLY") == "errors" { // development aid: only the round-8 stream
+		e.errorStream()
+		lap("error stream")
+		return
+	}
 	e.orderStream()
 	lap("script-level insertion order")
 	pool := e.buildPool()
@@ -333,6 +338,8 @@ func Run(c *vh.Ctx) {
 	e.unbalancedStream()
 	e.obModelStream(m, obCases(c.N(5, 7)))
 	lap("unbalanced stream; output-buffer stack against the model")
+	e.errorStream()
+	lap("error stream")
 	e.reorderStream(m)
 	lap("reorder stream")
 	e.closureProbe()
